@@ -124,6 +124,8 @@ def dataset_case(args) -> dict:
                                 kw = {"shuffle": sh}
                                 if par is not None:
                                     kw["file_parallelism"] = par
+                                if iface == "tf" and (sh + (par or 0)) % 2:
+                                    kw["batch_size"] = 2  # batched + unbatch
                                 tg = Tagger() if with_pr else None
                                 if tg:
                                     kw["process_record"] = tg
@@ -223,9 +225,10 @@ def run(ctx: core.Ctx) -> None:
     rustbuild.ensure_ext()
     with core.pool(need_sedpack=False) as ex:
         run_unit(ctx, ex)
-        res = list(ex.map(lazypool_mc.explore_config,
-                          sorted(pool_configs(ctx.tier), key=c13.weight,
-                                 reverse=True)))
+        pc = sorted(pool_configs(ctx.tier), key=c13.weight, reverse=True)
+        for c in pc:
+            c["max_seconds"] = 1500 if ctx.tier == "thorough" else 200
+        res = list(ex.map(lazypool_mc.explore_config, pc))
     sub = core.Ctx("C13", ctx.tier, ctx.seed)
     sub.findings = []
     c13.report(sub, res, label="lazy pool ")
